@@ -63,28 +63,38 @@ func refConv(g convGeom, x, w, b []float64, lo, hi []int) (dotRef, bool) {
 	}
 	r := dotRef{shape: append([]int{g.n, g.m}, out...), k: g.c*prod(g.k) + 1}
 	inSz, kSz, oSz := prod(g.in), prod(g.k), prod(out)
+	// flat loops without per-element allocation (large images are generated occasionally)
+	oi, ki := make([]int, sp), make([]int, sp)
 	for n := 0; n < g.n; n++ {
 		for m := 0; m < g.m; m++ {
 			for o := 0; o < oSz; o++ {
-				oi := unravel(o, out)
+				rem := o
+				for a := sp - 1; a >= 0; a-- {
+					oi[a] = rem % out[a]
+					rem /= out[a]
+				}
 				s, cond := 0.0, 0.0
 				for c := 0; c < g.c; c++ {
+					wBase, xBase := (m*g.c+c)*kSz, (n*g.c+c)*inSz
 					for t := 0; t < kSz; t++ {
-						ki := unravel(t, g.k)
-						inside := true
-						pos := make([]int, sp)
+						rem := t
+						for a := sp - 1; a >= 0; a-- {
+							ki[a] = rem % g.k[a]
+							rem /= g.k[a]
+						}
+						off, inside := 0, true
 						for a := 0; a < sp; a++ {
 							p := oi[a]*g.stride[a] + ki[a]*g.dil[a] - lo[a]
 							if p < 0 || p >= g.in[a] {
 								inside = false
 								break
 							}
-							pos[a] = p
+							off = off*g.in[a] + p
 						}
 						if !inside {
 							continue
 						}
-						p := w[(m*g.c+c)*kSz+t] * x[(n*g.c+c)*inSz+ravel(pos, g.in)]
+						p := w[wBase+t] * x[xBase+off]
 						s += p
 						cond += math.Abs(p)
 					}
@@ -143,6 +153,15 @@ func genConvGeom(rt *rapid.T) convGeom {
 				}
 			}
 			g.in[a], g.padLo[a], g.padHi[a] = p-lo-hi, lo, hi
+		}
+	}
+	if sp == 2 && (g.autoPad == "" || g.autoPad == "NOTSET") && rapid.IntRange(0, 1499).Draw(rt, "largeImage") == 0 {
+		// an output of more than 16 384 elements (thresholds of blocked / parallel convolution loops)
+		g.n, g.c, g.m = rapid.IntRange(1, 2).Draw(rt, "largeN"), 1, rapid.IntRange(3, 6).Draw(rt, "largeM")
+		for a := 0; a < 2; a++ {
+			g.k[a], g.dil[a], g.stride[a] = rapid.IntRange(2, 3).Draw(rt, "largeK"), 1, 1
+			g.in[a] = rapid.IntRange(50, 66).Draw(rt, "largeIn")
+			g.padLo[a], g.padHi[a] = rapid.IntRange(0, 1).Draw(rt, "largePadLo"), rapid.IntRange(0, 1).Draw(rt, "largePadHi")
 		}
 	}
 	g.hasBias = rapid.Bool().Draw(rt, "bias")
@@ -340,6 +359,29 @@ func TestC05(t *testing.T) {
 		ev.Case("C05", c.String(), g.nontrivial(), cls...)
 		if v := c05Judge(c, res); v != "" {
 			rt.Fatalf("C05 violated by %v\n%s: %s\noutcome: %v", c, descNode(node), v, res)
+		}
+		// the caller owns its tensors: the same weight object with new contents, given to a fresh
+		// operator, must be convolved with the new contents
+		if res.ok() && g.group <= 1 && rapid.IntRange(0, 5).Draw(rt, "reuseWeightObject") == 0 {
+			ins := c.inputs()
+			first := runOp("Conv", node, ins)
+			wv := f64s(c.w)
+			for i := range wv {
+				wv[i] = -wv[i] + 0.5
+			}
+			c2 := c
+			c2.w = toDtype(c.dt, c.w.Shape(), wv)
+			if err := tensor.Copy(ins[1], c2.w); err != nil {
+				rt.Fatalf("harness: cannot overwrite the weight tensor in place: %v", err)
+			}
+			second := runOp("Conv", node, ins)
+			ev.Class("C05", "weight-object-reused-with-new-contents")
+			if v := c05Judge(c, first); v != "" {
+				rt.Fatalf("C05 violated by %v: %s", c, v)
+			}
+			if v := c05Judge(c2, second); v != "" {
+				rt.Fatalf("C05 violated by %v when the weight tensor object of a previous call is passed again with new contents: %s", c2, v)
+			}
 		}
 		if rapid.IntRange(0, 4).Draw(rt, "modelLevel") == 0 {
 			mres := runSingleNodeModel(node, c.inputs(), 1)
